@@ -7,7 +7,7 @@ import numpy as np
 from ..poly import P, normal
 from .. import pysym, shims, panelctx, pycheck
 from ..pysym import Interp, real, integer, Opaque, SymRaise, Obj
-from ..kernel import InArray
+from ..kernel import InArray, user_array
 from ..panelctx import field_atom, panel_key
 from . import py_panel
 from .py_panel import build, report
@@ -76,7 +76,7 @@ def check_panel_fields(led, replay=None):
                 p, kw, want, g = build(it, geom, 'uniform', 'none', {})
                 it.call(it.getattr(p, 'calc_k0'), [], dict(silent=True))
                 del calls[:]
-                c = InArray('c', shape=(g['num'] * kw['m'] * kw['n'],))
+                c = user_array('c', shape=(g['num'] * kw['m'] * kw['n'],))
                 pkw, X, Y = points(form, kw)
                 o = dict(opts)
                 Fuser = None
@@ -91,7 +91,8 @@ def check_panel_fields(led, replay=None):
             for path, out in it.explore(run):
                 name = '%s[%s]' % (func, tag)
                 if out[0] != 'return':
-                    report(led, name + '/no-exception', func, ['raises %s%s' % (out[1].tname, tuple(str(a)[:80] for a in out[1].eargs))], replay, signature='raise:' + out[1].tname)
+                    report(led, name + '/no-exception', func, ['raises %s%s' % (out[1].tname, tuple(str(a)[:80] for a in out[1].eargs))],
+                           replay_strided if out[1].tname == 'KernelPrecondition' else replay, signature='raise:' + out[1].tname)
                     continue
                 p, kw, want, g, r, X, Y, cl, Fuser = out[1]
                 probs = []
@@ -167,7 +168,7 @@ def check_assembly_fields(led):
                 p.attrs['group'] = grp
             del calls[:]
             offs, tot = offsets(meta)
-            c = InArray('c', shape=(tot,))
+            c = user_array('c', shape=(tot,))
             r = it.call(it.getattr(asm, method), [c, asked], dict(gridx=2, gridy=3, **opts))
             return asm, panels, meta, r, list(calls)
         for path, out in it.explore(run):
@@ -279,7 +280,7 @@ def check_bay_fields(led):
                         s = it.call(it.getattr(bay, 'add_bladestiff1d'), [], dict(ys=ys, bf=real('bf%d' % q), **flam))
                     stiffs.append(s)
                 size = it.call(it.getattr(bay, 'get_size'), [], {})
-                c = InArray('c', shape=(size,))
+                c = user_array('c', shape=(size,))
                 del calls[:]
                 if si is None:
                     r = it.call(it.getattr(bay, 'uvw_skin'), [c], dict(xs=X, ys=Y))
@@ -335,6 +336,42 @@ def check_bay_fields(led):
                 report(led, name, func, probs, replay=replay_bay_field if probs else None)
     led.solver_time('z3-feasibility', it.solver_time)
     led.bounded_item('StiffPanelBay field recovery: 1..3 stiffeners in 8 orders of kinds (sizes, series orders, positions symbolic); three symbolic points')
+
+
+_RPS = {}
+
+
+def replay_strided():
+    """real Panel.uvw / strain / stress with a strided amplitude vector (a column of a C-ordered matrix) against the same values in a
+    contiguous copy"""
+    if 'r' in _RPS:
+        return _RPS['r']
+    from ..pyreplay import run_real
+    script = '''
+import numpy as np
+from compmech.panel import Panel
+p = Panel(a=1., b=0.6, r=3., stack=[0, 45, -45, 90], plyt=1.25e-4, laminaprop=(142.5e9, 8.7e9, 0.28, 5.1e9, 5.1e9, 5.1e9), m=4, n=5)
+p.calc_k0(silent=True)
+rng = np.random.RandomState(3)
+M = rng.rand(p.get_size(), 3)
+c = M[:, 1]
+xs = np.array([0.1, 0.4, 0.77]); ys = np.array([0.05, 0.3, 0.52])
+res = {}
+u1 = p.uvw(c, xs=xs, ys=ys); u2 = p.uvw(c.copy(), xs=xs, ys=ys)
+res["uvw"] = float(max(abs(np.asarray(a) - np.asarray(b)).max() for a, b in zip(u1, u2)))
+for nl in (False, True):
+    e1 = p.strain(c, xs=xs, ys=ys, NLterms=nl); e2 = p.strain(c.copy(), xs=xs, ys=ys, NLterms=nl)
+    res["strain,NLterms=%s" % nl] = float(max(abs(e1[k] - e2[k]).max() for k in e2))
+    s1 = p.stress(c, xs=xs, ys=ys, NLterms=nl); s2 = p.stress(c.copy(), xs=xs, ys=ys, NLterms=nl)
+    res["stress,NLterms=%s" % nl] = float(max(abs(s1[k] - s2[k]).max() for k in s2))
+out = {"max_difference_strided_vs_copy": res}
+'''
+    r = run_real(script, {})
+    d = r.get('max_difference_strided_vs_copy', {})
+    r['reproduced'] = bool(any(v > 1e-12 for v in d.values()) or r.get('raised'))
+    r['input'] = 'cylindrical panel, c = M[:, 1] of a C-ordered (size, 3) matrix, three points'
+    _RPS['r'] = r
+    return r
 
 
 def replay_bay_field():
